@@ -414,6 +414,11 @@ func (x *Exec) step(st *State) []*State {
 		f.pc++
 	case *ssa.Go:
 		st.notes = append(st.notes, "spawn:"+i.Call.Value.Name())
+		st.ghost["$spawns"] = Add(st.ghostInt("$spawns"), IntLit(1))
+		// the go statement is a call site for sinks and anchors (what the goroutine is started with)
+		gargs, _ := x.evalCallOperands(st, f, &i.Call)
+		x.checkSinks(st, f, &i.Call, gargs)
+		x.recordAnchor(st, f, &i.Call, gargs, nil, st.snap())
 		x.noteLib("go statement: spawned goroutine body not executed in this function (" + shortCallName(&i.Call) + ")")
 		f.pc++
 	case *ssa.Call:
@@ -422,8 +427,31 @@ func (x *Exec) step(st *State) []*State {
 	case *ssa.Panic:
 		x.emit(st, "unreachable-panic", fmt.Sprintf("b%d", f.block.Index), "explicit panic must be unreachable", nil, TFalse)
 		st.dead = true
-	case *ssa.Send, *ssa.Select, *ssa.MakeChan:
-		bail("channel operation %T in %s", in, f.fn)
+	case *ssa.MakeChan:
+		// channels carry no modelled state: a fresh reference; what is received is arbitrary
+		x.noteLib("channels: send has no modelled effect, receive and select yield arbitrary values/choices")
+		f.vals[i] = Sc{st.newRef("chan")}
+		f.pc++
+	case *ssa.Send:
+		x.noteLib("channels: send has no modelled effect, receive and select yield arbitrary values/choices")
+		f.pc++
+	case *ssa.Select:
+		x.noteLib("channels: send has no modelled effect, receive and select yield arbitrary values/choices")
+		idx := reg.freshConst("select", SInt)
+		lo := int64(0)
+		if !i.Blocking {
+			lo = -1
+		}
+		st.assume(And(Cmp(">=", idx, IntLit(lo)), Cmp("<", idx, IntLit(int64(len(i.States))))))
+		st.ghost["$selected"] = idx
+		tv := TupleV{E: []Val{Sc{idx}, Sc{reg.freshConst("recvok", SBool)}}}
+		for _, sst := range i.States {
+			if sst.Dir == types.RecvOnly {
+				tv.E = append(tv.E, st.freshVal(sst.Chan.Type().Underlying().(*types.Chan).Elem(), "recv"))
+			}
+		}
+		f.vals[i] = tv
+		f.pc++
 	default:
 		bail("instruction %T in %s", in, f.fn)
 	}
@@ -512,7 +540,13 @@ func (x *Exec) unop(st *State, f *Frame, i *ssa.UnOp) Val {
 	case token.SUB:
 		return Sc{Sub(IntLit(0), v.(Sc).T)}
 	case token.ARROW:
-		bail("channel receive in %s", f.fn)
+		x.noteLib("channels: send has no modelled effect, receive and select yield arbitrary values/choices")
+		et := i.X.Type().Underlying().(*types.Chan).Elem()
+		rv := st.freshVal(et, "recv")
+		if i.CommaOk {
+			return TupleV{E: []Val{rv, Sc{reg.freshConst("recvok", SBool)}}}
+		}
+		return rv
 	case token.XOR:
 		return Sc{reg.uf("u_bitnot", SInt, v.(Sc).T)}
 	}
@@ -800,6 +834,7 @@ func (x *Exec) mapUpdate(st *State, f *Frame, i *ssa.MapUpdate) {
 	kt, vt := mapKV(i.Map.Type())
 	m := x.val(st, f, i.Map).(Sc).T
 	x.emit(st, "nil-map-write", posOf(i), "map != nil at "+instrText(i), nil, Not(Eq(m, IntLit(0))))
+	x.checkGuardedMapWrite(st, m)
 	key := x.mapKey(st, x.val(st, f, i.Key))
 	x.mapStore(st, m, kt, vt, key, x.val(st, f, i.Value))
 }
@@ -1009,7 +1044,7 @@ func (x *Exec) typeAssert(st *State, f *Frame, i *ssa.TypeAssert) Val {
 	iv := x.val(st, f, i.X).(IfaceV)
 	if _, ok := i.AssertedType.Underlying().(*types.Interface); ok {
 		// interface-to-interface: succeeds iff non-nil and implements; implementation is not modelled
-		ok := reg.freshConst("implements", SBool)
+		ok := implementsTerm(iv.Tag, i.AssertedType)
 		st.assume(Implies(ok, Not(Eq(iv.Tag, IntLit(0)))))
 		if i.CommaOk {
 			res := IfaceV{Ite(ok, iv.Tag, IntLit(0)), Ite(ok, iv.Pay, IntLit(0))}
@@ -1506,4 +1541,10 @@ func (x *Exec) zeroGhost(st *State, r Term) {
 		}
 		st.store("X|"+g, []Sort{SInt}, srt, []Term{r}, z)
 	}
+}
+
+// implementsTerm: whether the dynamic type (tag) implements the interface — an uninterpreted predicate of the tag,
+// so that a contract can state it (builtin implements(x, "pkg.Iface")).
+func implementsTerm(tag Term, iface types.Type) Term {
+	return reg.uf("impl"+mangle(types.TypeString(iface, nil)), SBool, tag)
 }
